@@ -516,11 +516,17 @@ def _canonical_descent(ctx, rule):
     from . import c08
     return c08.r3_canonical_descent(ctx, rule)
 
+def _region_agreement(ctx, rule):
+    # after a restore nothing is emitted twice only if "a parent is still queued" means the same thing for the walk and for the
+    # parent test (seed C02-o: is_parent_around compared with < while the walk restores at <=)
+    from . import c08
+    return c08.r2_region_agreement(ctx, rule)
+
 def rules(tier):
     return [('C02.R12', r12_queue_conservation), ('C02.R1', lambda c, r: r1_adoption_kernel(c, r)), ('C02.R2', r2_predecessor), ('C02.R3', r3_coparent_prob),
             ('C02.R4', r4_copy_before_mutate), ('C02.R5', r5_all_children_pushed), ('C02.R6', r6_seeding),
             ('C02.R7', c01.r3b_prob_pure), ('C02.R8', c01.r4_prob_pt_coupling), ('C02.R9', c01.r5_successor), ('C02.R10', _mask_insertion),
-            ('C02.R11', _exact_float), ('C02.R13', r13_queue_state_per_object), ('C02.R14', _saved_position_exact), ('C02.R15', _canonical_descent)] + _loader_bundle() + []
+            ('C02.R11', _exact_float), ('C02.R13', r13_queue_state_per_object), ('C02.R14', _saved_position_exact), ('C02.R15', _canonical_descent), ('C02.R16', _region_agreement)] + _loader_bundle() + []
 
 
 META = {
